@@ -167,6 +167,16 @@ def _schema_constrains_root(ctx: Ctx, mm, order, vi, vcall, vfn):
                             env[(fn.name, t.value.id)] = None
         elif isinstance(st, ast.Return) and st.value is not None:
             rets[fn.name] = ev(st.value, fn)
+            # the call sites waiting for this helper's result get it now (the helper may be called again later with
+            # other arguments)
+            for k_, v_ in list(env.items()):
+                if isinstance(v_, dict) and v_.get("kind") == "call" and v_.get("fn") == fn.name:
+                    r_ = rets[fn.name]
+                    env[k_] = dict(r_, items=dict(r_["items"])) if isinstance(r_, dict) and "items" in r_ else r_
+        elif isinstance(st, ast.With):
+            for item in st.items:
+                if isinstance(item.optional_vars, ast.Name):
+                    env[(fn.name, item.optional_vars.id)] = ev(item.context_expr, fn)
         elif isinstance(st, ast.Expr) and isinstance(st.value, ast.Call) and isinstance(st.value.func, ast.Attribute) \
                 and isinstance(st.value.func.value, ast.Name):
             call = st.value
